@@ -211,11 +211,16 @@ def twin_case(rep, rng, fixed=None):
 def run_shard(rep):
     from vlab.dagcommon import scenario_rng
     cfg = META['tiers'][rep.tier]
-    rep.require('config_pairs_compared', 20 if rep.tier == 'quick' else 500)
+    rep.require('config_pairs_compared', 20 if rep.tier == 'quick' else 200)
     rep.require('runs_fork', 4)
     rep.require('twin_pairs', 100)
     rep.require('second_runs_of_the_same_task_objects_under_another_context', 50)
+    import time
+    twin_deadline = rep.t0 + 0.3 * (rep.deadline - rep.t0)       # the twins may take at most 30 % of the budget
     for j in range(rep.shard, cfg.get('n_twins', 400), rep.nshards):
+        if time.monotonic() > twin_deadline:
+            rep.count('twins_skipped_for_time')
+            continue
         twin_case(rep, scenario_rng(rep.seed, 'C01twin', j))
     jobs = [('real', j) for j in range(cfg['n_spec_real'])] + [('sim', j) for j in range(cfg['n_spec_sim'])]
     for kind, j in jobs[rep.shard::rep.nshards]:
